@@ -120,6 +120,7 @@ class wait_context {
             // Some external waiters or coroutine waiters sleep in wait list
             // Should to notify them that work is done
             std::uintptr_t wait_ctx_addr = std::uintptr_t(this);
+            __TBB_VERIF_POINT(vp_wait_ctx_zero, this, 0);
             r1::notify_waiters(wait_ctx_addr);
         }
     }
@@ -196,6 +197,7 @@ public:
     {}
 
     void reserve(std::uint32_t delta = 1) override {
+        __TBB_VERIF_POINT(vp_ref_vertex_reserve, this, delta);
         if (m_ref_count.fetch_add(static_cast<std::uint64_t>(delta)) == 0) {
             my_parent->reserve();
         }
@@ -204,6 +206,7 @@ public:
     void release(std::uint32_t delta = 1) override {
         auto parent = my_parent;
         std::uint64_t ref = m_ref_count.fetch_sub(static_cast<std::uint64_t>(delta)) - static_cast<std::uint64_t>(delta);
+        __TBB_VERIF_POINT(vp_ref_vertex_release, this, ref);
         if (ref == 0) {
             parent->release();
         }
